@@ -577,6 +577,9 @@ func runErrClass(msg string) string {
 	case has("out of range"), has("out of bounds"), has("integer divide by zero"), has("nil pointer"), has("invalid memory address"),
 		has("error parsing regexp"), has("memory budget exceeded"), has("cannot fetch") && has("<nil>"):
 		return "value"
+	case has("invalid operation") && has("<nil>"):
+		// a nil operand (`int64(<nil>)` under AsInt64 on a nil path, `<nil> + int`): value-dependent, the property lists nil
+		return "value"
 	case has("invalid operation"), has("cannot fetch"), has("cannot use"), has("interface conversion"), has("reflect:"),
 		has("reflect.Value"), has("cannot get"), has("cannot slice"), has("invalid argument for len"), has("is not assignable"),
 		has("not defined on"):
@@ -663,6 +666,19 @@ func runC03(c *Ctx) {
 			cs.expect = 1 + c.Rng.Intn(3)
 		}
 		cases = append(cases, cs)
+	}
+	// directed: result directives on programs whose static type is exactly the requested kind but whose value is nil on
+	// one path (a conditional with a nil branch) — the cast epilogue must still run, so that a successful result is
+	// exactly bool / int64 / float64 (seed c03_7: the compiler skipped the cast when the root's static kind matched)
+	for _, src := range []string{"B ? I64 : nil", "B ? nil : I64", "not B ? F64 : nil", "B ? nil : F64", "B ? I64 + I64 : nil",
+		"(B ? nil : F64 * 2.5)", "B ? (I > 0 ? I64 : nil) : I64", "B ? true : nil", "B ? nil : not B", "I > 100 ? F64 : nil",
+		"B ? I64 : (I > 0 ? nil : I64)", "B ? F64 : F64", "B ? I64 : I64"} {
+		for _, e := range envs {
+			for ex := 1; ex <= 3; ex++ {
+				cases = append(cases, c03Case{env: e, src: src, expect: ex, static: true, goal: nil})
+				c.R.Count("directed:nil-path-under-directive", 1)
+			}
+		}
 	}
 	// nested builtins with element types that differ between the levels (the collection stack)
 	nNested := n / 4
